@@ -42,6 +42,37 @@ def rand_value(rng, p, N):
     return [[ocpgen.rnd(rng, -1.5, 1.5) for _ in range(ncol)] for _ in range(n)]
 
 
+def concat_event(rng, spec, N):
+    """set_value on a simple concatenation of two global parameters (vertcat of columns / horzcat of equal heights)"""
+    glob = [p for p in spec["params"] if not p.get("grid")]
+    pairs = [(a, b, "v") for a in glob for b in glob if a is not b and a["shape"][1] == 1 and b["shape"][1] == 1]
+    pairs += [(a, b, "h") for a in glob for b in glob if a is not b and a["shape"][0] == b["shape"][0]]
+    if not pairs:
+        return None
+    a, b, cat = rng.choice(pairs)
+    return {"names": [a["name"], b["name"]], "cat": cat, "values": [rand_value(rng, a, N), rand_value(rng, b, N)]}
+
+
+def do_set_value(b, e):
+    """perform the set_value event `e` (single parameter or concatenation) on the real stage"""
+    import casadi as ca
+    from ..gen import build
+    if "names" in e:
+        cat = ca.vertcat if e["cat"] == "v" else ca.horzcat
+        sym = cat(*[b.syms[n] for n in e["names"]])
+        val = cat(*[build.param_value({"value": v}) for v in e["values"]])
+        return b.stage.set_value(sym, val)
+    return b.stage.set_value(b.syms[e["name"]], build.param_value({"value": e["value"]}))
+
+
+def shadow_update(shadow, e):
+    if "names" in e:
+        for n, v in zip(e["names"], e["values"]):
+            shadow[n] = v
+    else:
+        shadow[e["name"]] = e["value"]
+
+
 def gen_cases(rng, tier):
     n = 150 if tier == "quick" else 2500
     cases = []
@@ -58,6 +89,10 @@ def gen_cases(rng, tier):
         nev = rng.randint(2, 5) if tier == "quick" else rng.randint(3, 6)
         for _ in range(nev):
             p = rng.choice(spec["params"])
+            ce = concat_event(rng, spec, N) if rng.random() < 0.2 else None
+            if ce:
+                events.append(dict(ce, phase=rng.choice(["pre", "post", "post", "post_solve"])))
+                continue
             events.append({"phase": rng.choice(["pre", "post", "post", "post_solve"]), "name": p["name"],
                            "value": rand_value(rng, p, N)})
         # interleave guess updates: they must not disturb any parameter value
@@ -169,8 +204,8 @@ def run_case(case):
     try:
         b = C.call("declare", build.build_ocp, spec)
         for e in [e for e in events if e["phase"] == "pre"]:
-            C.call("set_value(pre)", b.stage.set_value, b.syms[e["name"]], build.param_value({"value": e["value"]}))
-            shadow[e["name"]] = e["value"]
+            C.call("set_value(pre)", do_set_value, b, e)
+            shadow_update(shadow, e)
             res["counters"]["events"] += 1
         obs = engine.Observed(spec, b)
     except C.RockitRaised as e:
@@ -247,8 +282,7 @@ def run_case(case):
             if e.get("op") == "set_initial":
                 C.call("set_initial(%s)" % e["phase"], b.stage.set_initial, b.syms[e["name"]], e["value"])
             else:
-                C.call("set_value(%s)" % e["phase"], b.stage.set_value, b.syms[e["name"]],
-                       build.param_value({"value": e["value"]}))
+                C.call("set_value(%s)" % e["phase"], do_set_value, b, e)
         except C.RockitRaised as ex:
             res["violations"].append(C.exc_violation(ID, ex, "history"))
             return res
@@ -258,8 +292,10 @@ def run_case(case):
             if not compare("after set_initial following set_value events", 1):
                 return res
             continue
-        shadow[e["name"]] = e["value"]
+        shadow_update(shadow, e)
         res["counters"]["events"] += 1
+        if "names" in e:
+            res["counters"]["concat_events"] = res["counters"].get("concat_events", 0) + 1
         obs.refresh()
         if not compare("after set_value %s" % ("after a solve" if e["phase"] == "post_solve" else "on the transcribed "
                                                                                                   "problem"), 1):
@@ -294,6 +330,6 @@ def run_case(case):
             if "do not appear in the constraints and objective" not in str(ex):
                 res["violations"].append(C.exc_violation(ID, C.RockitRaised("second solve", ex), "history"))
     res["nontrivial"] = res["counters"]["nlp_compares"] > 0
-    res["sample"] = {"spec": C.spec_digest(spec), "events": [(e["phase"], e["name"]) for e in events],
+    res["sample"] = {"spec": C.spec_digest(spec), "events": [(e["phase"], e.get("name") or "+".join(e["names"])) for e in events],
                      "final_values": {k: C.short(v) for k, v in list(shadow.items())[:3]}}
     return res
